@@ -25,6 +25,11 @@ impl va::StreamFilter for SeededFilter {
         }
         let Some(seed) = self.0 else { return Ok(va::StreamFilterVerdict::Keep) };
         Ok(match verdict_code(seed, &item.key.user_key, &item.value) {
+            3 => {
+                let mut v = item.value.to_vec();
+                v.extend(std::iter::repeat(0x52).take(12));
+                va::StreamFilterVerdict::Replace((lsm_tree::ValueType::Value, v.into()))
+            }
             4 => {
                 let mut v = item.value.to_vec();
                 v.push(0x52);
